@@ -78,6 +78,9 @@ UNITS = [
 from contracts.check_type import check_type_unit  # noqa: E402
 UNITS.append(check_type_unit("C05"))
 
+from contracts.c01 import json_number_lemmas  # noqa: E402
+LEMMAS = [json_number_lemmas("C05")]
+
 VERIFIED_CALLEES = ()
 LEVEL = "other"
 TECHNIQUE = "contract-based deductive verification of the shared loading funnel (VCs from the real AST) + bounded relational contract across 9 channels, 4 parser modes and dotted/nested spelling"
